@@ -42,7 +42,8 @@ def observe_problem(pr):
         if float(model.to_frac(t[2])) != float(f.value):
             dup.append(("printed-value-differs", k, t[2], repr(f.value)))
     goals = [(bool(g.is_positive), (g.name,) + tuple(g.grounded_objects)) for g in pr.goal_state_predicates]
-    ngoals = sorted(repr(model.canon_expr(sx.read(t.to_pddl()))) for t in pr.goal_state_fluents)
+    # observed at 12 decimals: the default print precision (4) would hide what the parsed object actually holds
+    ngoals = sorted(repr(model.canon_expr(sx.read(t.to_pddl(decimal_digits=12)))) for t in pr.goal_state_fluents)
     return {"name": pr.name, "objects": objs, "atoms": atoms, "fluents": fl, "goals": goals, "numeric_goals": ngoals, "dup": dup}
 
 
